@@ -1,4 +1,5 @@
-(* C09 driver.  line protocol:  <lang: c|cpp|py> <id_type> <token>
+(* C09 driver.  line protocol:  <lang: c|cpp|py>[@<k>] <id_type> <token>      (k: configuration index, 0/absent = shipped,
+                                                                              k>=1 = override k-1 of Gen_Strop.cfgs_ov)
    id_type, token: 'e' (empty) or dot-separated decimal code points
    output:  <result> <flags> <oracle>
      result: ok:<token as dot-separated code points or e> | err:R (RuntimeError) | err:V (ValueError)
@@ -16,6 +17,11 @@ let int_of_n = function N0 -> 0 | Npos p -> int_of_pos p
 let parse s = if s = "e" then [] else List.map (fun t -> n_of_int (int_of_string t)) (String.split_on_char '.' s)
 let show s = if s = [] then "e" else String.concat "." (List.map (fun c -> string_of_int (int_of_n c)) s)
 let lang_of = function "c" -> LC | "cpp" -> LCpp | "py" -> LPy | s -> failwith ("lang " ^ s)
+let rec nat_of_int n = if n <= 0 then O else S (nat_of_int (n - 1))
+let lang_cfg s = match String.split_on_char '@' s with
+  | [l] -> (lang_of l, O)
+  | [l; k] -> (lang_of l, nat_of_int (int_of_string k))
+  | _ -> failwith ("lang " ^ s)
 let b x = if x then "1" else "0"
 
 let () =
@@ -24,23 +30,25 @@ let () =
       let line = input_line stdin in
       match String.split_on_char ' ' (String.trim line) with
       | [l; ty; tok] ->
-        let l = lang_of l and ty = parse ty and tok = parse tok in
-        let r = strop_lang l ty tok in
+        let (l, k) = lang_cfg l and ty = parse ty and tok = parse tok in
+        let r = strop_sel k l ty tok in
+        (* the regenerated step list, interpreted, must give the same answer as the hand-written composition *)
+        if strop_sel_pipeline k l ty tok <> r then failwith "pipeline interpretation differs from strop";
         let flags = Buffer.create 8 in
-        let stage f cur ch = match f l ty cur with
+        let stage f cur ch = match f k l ty cur with
           | TOk t -> if t <> cur then Buffer.add_char flags ch; t
           | _ -> cur in
-        let e = stage stage_encode tok 'E' in
-        let k = stage stage_keyword e 'K' in
-        let p = stage stage_pattern k 'P' in
+        let e = stage sel_encode tok 'E' in
+        let kw = stage sel_keyword e 'K' in
+        let p = stage sel_pattern kw 'P' in
         (match r with
          | Ok t -> if t <> p then Buffer.add_char flags 'H'
          | _ -> Buffer.add_char flags 'X');
         let fl = if Buffer.length flags = 0 then "-" else Buffer.contents flags in
         (match r with
          | Ok t ->
-           print_string ("ok:" ^ show t ^ " " ^ fl ^ " v" ^ b (valid_ident t) ^ "r" ^ b (reserved_lang l t)
-                         ^ "p" ^ b (pattern_lang l ty t) ^ "u" ^ b (und_reserved t) ^ "\n")
+           print_string ("ok:" ^ show t ^ " " ^ fl ^ " v" ^ b (valid_ident t) ^ "r" ^ b (reserved_sel k l t)
+                         ^ "p" ^ b (pattern_sel k l ty t) ^ "u" ^ b (und_reserved t) ^ "\n")
          | ErrRuntime -> print_string ("err:R " ^ fl ^ " -\n")
          | ErrValue -> print_string ("err:V " ^ fl ^ " -\n"))
       | _ -> print_string "ERR - -\n"
